@@ -56,6 +56,10 @@ RULE = ("Wrapped object = recording callable c3 + c0*asinh(x) + c1*asinh(y) + c2
         "samplers (all 14 sample* functions, counts 1..5, 1-D up to 33). Wrapped VECTOR functions also come in two persistent-object flavours: "
         "a Python callable that returns one stored Vector3D on every call, and raysect's ConstantVector (returns its own stored "
         "object); after every evaluation the stored vector must still have its original components. "
+        "NESTED: sub-check `nested` builds Outer(Inner(recorder)) for every ordered pair of wrapper "
+        "classes whose dimensions fit (same class with other parameters - non-commuting swizzle shapes, overlapping clamps, "
+        "other periods - or a different class; scalar and vector chains) and compares the innermost recorded argument and the "
+        "value with the composition of the two mappings. "
         "RE-USE: every wrapper instance is evaluated twice in a row at each of 1-3 "
         "points and then again at the first point (value and inner argument must repeat bit for bit); every mask is evaluated "
         "forward, backward and twice in a row per point; every sampler is called twice (first result intact, equal, no shared "
@@ -88,6 +92,10 @@ TOLERANCES = {
 
 _ONLY = set(filter(None, os.environ.get("VERIF_ONLY", "").split(",")))
 _WRAP_SUBS = ["iso", "swizzle", "slice", "clamp", "cyl", "periodic"]
+_NESTED_CLASSES = ["ClampInput1D", "ClampOutput1D", "PeriodicTransform1D", "Slice2D", "Swizzle2D", "ClampInput2D", "ClampOutput2D",
+                   "IsoMapper2D", "PeriodicTransform2D", "Slice3D", "AxisymmetricMapper", "Swizzle3D", "ClampInput3D", "ClampOutput3D",
+                   "IsoMapper3D", "CylindricalTransform", "PeriodicTransform3D", "VectorPeriodicTransform1D",
+                   "VectorPeriodicTransform2D", "VectorPeriodicTransform3D", "VectorCylindricalTransform", "VectorAxisymmetricMapper"]
 _SAMPLER_FNS = ["sample1d", "sample2d", "sample3d", "samplevector2d", "samplevector3d",
                 "sample1d_points", "sample2d_points", "sample3d_points", "samplevector2d_points", "samplevector3d_points",
                 "sample2d_grid", "sample3d_grid", "samplevector2d_grid", "samplevector3d_grid"]
@@ -116,8 +124,11 @@ REQUIRED_LABELS = [l for l in [
     # persistent-object flavour of wrapped vector functions (one stored Vector3D handed out on every call)
     "cyl:wf:stored", "cyl:wf:const", "periodic:wf:stored", "periodic:wf:const", "samplers:wf:stored", "samplers:wf:const",
     "periodic:persistent", "samplers:persistent",
+    # wrappers wrapping wrappers
+    "nested:same-class", "nested:mixed", "nested:swizzle-noncommuting", "nested:reuse",
     "cyl:VectorCylindricalTransform:persistent:phi!=0-twice", "cyl:VectorAxisymmetricMapper:persistent:phi!=0-twice",
 ] + ["samplers:" + f for f in _SAMPLER_FNS]
+  + ["nested:%s:%s" % (r, c) for r in ("outer", "inner") for c in _NESTED_CLASSES]
   + ["%s:%s" % (s, k) for s in _WRAP_SUBS for k in ("af:int", "af:np32", "af:np64", "af:float", "wf:object", "wf:function", "wf:raysect", "reuse")]
   + ["%s:%s" % (s, k) for s in ("slice", "clamp", "periodic") for k in ("cf:int", "cf:np32", "cf:np64", "cf:float")]
     if not _ONLY or l.split(":")[0] in _ONLY]
@@ -1421,6 +1432,184 @@ def run_samplers(case, ctx):
     ctx.nt(one or noncubic)
 
 
+# ================================================================================================ nested
+# Every wrapper class wraps ANOTHER wrapper (two levels, innermost = recording callable).  Oracle = composition of the two
+# mappings: exact mapping code for swizzle / slice / clamp / iso layers; for the layers whose mapping carries a rounding
+# (periodic for x < 0, sqrt/atan2 of the axisymmetric / cylindrical layers) the intermediate point is what a single-level
+# instance of that layer hands to a recorder, itself checked against the single-level oracle (range + congruence, hypot/atan2).
+_LAYERS = {  # class: (number of call arguments, number of arguments of the wrapped function)
+    "ClampInput1D": (1, 1), "ClampOutput1D": (1, 1), "PeriodicTransform1D": (1, 1), "Slice2D": (1, 2),
+    "Swizzle2D": (2, 2), "ClampInput2D": (2, 2), "ClampOutput2D": (2, 2), "IsoMapper2D": (2, 2), "PeriodicTransform2D": (2, 2),
+    "Slice3D": (2, 3), "AxisymmetricMapper": (3, 2),
+    "Swizzle3D": (3, 3), "ClampInput3D": (3, 3), "ClampOutput3D": (3, 3), "IsoMapper3D": (3, 3), "CylindricalTransform": (3, 3),
+    "PeriodicTransform3D": (3, 3)}
+_VLAYERS = {"VectorPeriodicTransform1D": (1, 1), "VectorPeriodicTransform2D": (2, 2), "VectorPeriodicTransform3D": (3, 3),
+            "VectorCylindricalTransform": (3, 3), "VectorAxisymmetricMapper": (3, 2)}
+_ALL_LAYERS = dict(_LAYERS, **_VLAYERS)
+_PERMS3 = [[0, 1, 2], [0, 2, 1], [1, 0, 2], [1, 2, 0], [2, 0, 1], [2, 1, 0]]
+_NPERIODS = [1.0, 2.2, 0.75, 2 * math.pi, 0.1, 360.0, 3.0, 0.5]
+
+
+def ncoord():
+    """moderate coordinates: 0 or 1e-12 <= |v| <= 1e100 (every intermediate point stays in the accurate range of every layer)."""
+    return st.one_of(st.floats(-10.0, 10.0).filter(lambda v: v == 0 or abs(v) >= 1e-12),
+                     st.floats(-10.0, 10.0).map(lambda v: float(round(v))),
+                     st.sampled_from([0.0, -0.0, 1.0, -1.0, 0.1, -0.1, 2.2, -2.2, 1234.5678, -1234.5678, 1e15, -1e15, 1e-12, 1e100, -1e100, 0.5]))
+
+
+@st.composite
+def _layer(draw, cls):
+    d_in, d_out = _ALL_LAYERS[cls]
+    L = {"cls": cls}
+    if cls == "Swizzle3D":
+        L["shape"] = draw(st.one_of(st.sampled_from(_PERMS3), st.sampled_from(_PERMS3), st.sampled_from(_SHAPES3)))
+    elif cls.startswith("ClampInput"):
+        L["lims"] = [[lo, lo + wd] for lo, wd in (draw(st.tuples(st.floats(-5.0, 5.0), st.floats(0.1, 5.0))) for _ in range(d_in))]
+    elif cls.startswith("ClampOutput"):
+        lo, wd = draw(st.floats(-300.0, 300.0)), draw(st.floats(1.0, 300.0))
+        L["lims"] = [[lo, lo + wd]]
+    elif cls.startswith("IsoMapper"):
+        L["g"] = draw(coeffs())
+    elif cls.startswith("Slice"):
+        L["axis"] = draw(st.sampled_from(_AX2 if cls == "Slice2D" else _AX3))
+        L["value"] = draw(ncoord())
+    elif "Periodic" in cls:
+        L["periods"] = [draw(st.sampled_from(_NPERIODS if (d_in == 1 or k > 0) else [0.0]))
+                        for k in (draw(st.integers(0, 4)) for _ in range(d_in))]
+    return L
+
+
+@st.composite
+def nested_strategy(draw):
+    vector = draw(st.integers(0, 3)) == 0
+    table = _VLAYERS if vector else _LAYERS
+    pick = draw(st.integers(0, 9))
+    if pick == 0 and not vector:          # the pair whose order of composition matters most: swizzle in swizzle
+        outer = inner = "Swizzle3D"
+    elif pick == 1 and not vector:        # Slice2D can only sit inside a 1-D wrapper
+        outer, inner = draw(st.sampled_from(["ClampInput1D", "ClampOutput1D", "PeriodicTransform1D"])), "Slice2D"
+    else:
+        outer = draw(st.sampled_from(sorted(table)))
+        d_mid = table[outer][1]
+        cands = sorted(c for c, (di, do) in table.items() if di == d_mid)
+        same = draw(st.booleans()) and outer in cands
+        inner = outer if same else draw(st.sampled_from(cands))
+    L1, L2 = draw(_layer(outer)), draw(_layer(inner))
+    pts = draw(points(table[outer][0], 1, 3, ncoord()))
+    return {"outer": L1, "inner": L2, "vector": vector, "pts": pts, "f": draw(coeffs())}
+
+
+def _lbuild(L, wrapped_fn):
+    cls = L["cls"]
+    c = getattr(M, cls)
+    if cls == "Swizzle3D":
+        return c(wrapped_fn, tuple(int(i) for i in L["shape"]))
+    if cls.startswith("ClampInput"):
+        return c(wrapped_fn, *[float(v) for l in L["lims"] for v in l])
+    if cls.startswith("ClampOutput"):
+        return c(wrapped_fn, float(L["lims"][0][0]), float(L["lims"][0][1]))
+    if cls.startswith("IsoMapper"):
+        return c(wrapped_fn, Rec(L["g"], rot=1))
+    if cls.startswith("Slice"):
+        return c(wrapped_fn, L["axis"], float(L["value"]))
+    if "Periodic" in cls:
+        return c(wrapped_fn, *_fl(L["periods"]))
+    return c(wrapped_fn)
+
+
+def _lmap(ctx, L, args):
+    """The arguments layer L hands to the function it wraps when called with `args`."""
+    cls = L["cls"]
+    args = list(args)
+    if cls == "Swizzle2D":
+        return [args[1], args[0]]
+    if cls == "Swizzle3D":
+        return [args[int(i)] for i in L["shape"]]
+    if cls.startswith("ClampInput"):
+        return [_clampv(a, float(l[0]), float(l[1])) for a, l in zip(args, L["lims"])]
+    if cls.startswith("ClampOutput") or cls.startswith("IsoMapper"):
+        return args
+    if cls.startswith("Slice"):
+        ax = L["axis"]
+        ax = {"x": 0, "y": 1, "z": 2}[ax.lower()] if isinstance(ax, str) else int(ax)
+        out = list(args)
+        out.insert(ax, float(L["value"]))
+        return out
+    # layers with a rounding in the mapping: measured on a single-level instance, checked against the single-level oracle
+    d_out = _ALL_LAYERS[cls][1]
+    probe = VRec([1.0, 10.0, 100.0, 0.0]) if cls.startswith("Vector") else Rec([1.0, 10.0, 100.0, 0.0])
+    with ctx.cut("single-level"):
+        _lbuild(L, probe)(*args)
+    mid = list(_one_call(ctx, probe, "single-level"))
+    ctx.check(len(mid) == d_out, "single-level", lambda: "%s handed over %r" % (cls, mid))
+    if "Periodic" in cls:
+        for x, per, inner in zip(args, _fl(L["periods"]), mid):
+            if per == 0:
+                ctx.check(inner == x, "single-level", lambda: "%s: non-periodic axis %r -> %r" % (cls, x, inner))
+                continue
+            resid = abs((Fraction(x) - Fraction(inner)) / Fraction(per))
+            resid = abs(resid - round(resid)) * Fraction(per)
+            ctx.check(0.0 <= inner < per and resid <= Fraction(math.ulp(per)) / 2, "single-level",
+                      lambda: "%s period %r: %r -> %r" % (cls, per, x, inner))
+    else:
+        x, y, z = args
+        r_ref = math.hypot(x, y)
+        ok = abs(mid[0] - r_ref) <= 4 * U * r_ref and mid[-1] == z
+        if d_out == 3:
+            ok = ok and abs(mid[1] - math.atan2(y, x)) <= 2 * math.ulp(math.atan2(y, x))
+        ctx.check(ok or not (max(abs(x), abs(y)) == 0 or R_LO <= max(abs(x), abs(y)) <= R_HI), "single-level",
+                  lambda: "%s%r handed over %r" % (cls, tuple(args), mid))
+    return mid
+
+
+def _lpost(L, value, args):
+    """What layer L makes of the value returned by the function it wraps (args = the layer's own call arguments)."""
+    cls = L["cls"]
+    if cls.startswith("ClampOutput"):
+        return _clampv(value, float(L["lims"][0][0]), float(L["lims"][0][1]))
+    if cls.startswith("IsoMapper"):
+        return sval(L["g"], (value,), 1)
+    if cls in ("VectorCylindricalTransform", "VectorAxisymmetricMapper"):
+        return _rotz(value, math.atan2(args[1], args[0]))
+    return value
+
+
+def run_nested(case, ctx):
+    L1, L2 = case["outer"], case["inner"]
+    c1, c2 = L1["cls"], L2["cls"]
+    vector = bool(case.get("vector"))
+    ctx.label("same-class" if c1 == c2 else "mixed", "outer:" + c1, "inner:" + c2)
+    f = VRec(case["f"]) if vector else Rec(case["f"])
+    with ctx.cut("construct"):
+        w = _lbuild(L1, _lbuild(L2, f))
+    if c1 == c2 == "Swizzle3D":
+        s1, s2 = [int(i) for i in L1["shape"]], [int(i) for i in L2["shape"]]
+        if [s1[i] for i in s2] != [s2[i] for i in s1]:
+            ctx.label("swizzle-noncommuting")
+    n_rot = sum(1 for c in (c1, c2) if c in ("VectorCylindricalTransform", "VectorAxisymmetricMapper"))
+    first = None
+    for p_raw in case["pts"]:
+        p = _fl(p_raw)
+        f.calls.clear()
+        with ctx.cut("call"):
+            got = _copy(w(*p))
+        e_got = _one_call(ctx, f, "inner")
+        mid = _lmap(ctx, L1, p)
+        e = _lmap(ctx, L2, mid)
+        _expect_args(ctx, e_got, e, "inner",
+                     "%s(%s(f)) at %r: %s maps it to %r, %s maps that to %r; outer %r inner %r" % (c1, c2, p, c1, mid, c2, e, L1, L2))
+        want = _lpost(L1, _lpost(L2, f.value(tuple(e)), mid), p)
+        if vector and n_rot:
+            nrm = math.sqrt(sum(c * c for c in want))
+            ctx.close(_vec(got), want, "vector", rtol=0.0, atol=n_rot * 1e-12 * nrm, info="%s(%s(f)) at %r" % (c1, c2, p))
+        else:
+            ctx.check(_val(got) == (tuple(want) if vector else want), "value",
+                      lambda: "%s(%s(f)) at %r = %r, composition gives %r; outer %r inner %r" % (c1, c2, p, _val(got), want, L1, L2))
+        ctx.nt(_distinct(p) and L1 != L2)
+        first = first or (p, got, e_got, p)
+    _again(ctx, w, f, first, "%s(%s(f))" % (c1, c2))
+
+
 SUBCHECKS = {
     "iso": Given(iso_strategy, run_iso, quick=600, thorough=15000),
     "swizzle": Given(swizzle_strategy, run_swizzle, quick=600, thorough=15000),
@@ -1430,4 +1619,5 @@ SUBCHECKS = {
     "periodic": Given(periodic_strategy, run_periodic, quick=3000, thorough=120000),
     "mask": Given(mask_strategy, run_mask, quick=1200, thorough=40000),
     "samplers": Given(samplers_strategy, run_samplers, quick=1600, thorough=45000),
+    "nested": Given(nested_strategy, run_nested, quick=2400, thorough=60000),
 }
